@@ -1909,3 +1909,251 @@ Proof.
   - intros H. rewrite Forall_forall in H. specialize (H false). assert (Hf : false = true); [|discriminate].
     apply H. vm_compute. tauto.
 Qed.
+
+(* ------------------------------------------------------------------------------------------ *)
+(* Two of the hypotheses of connect_bal are invariants of the reachable states: the carrier's memo holds no
+   ConfirmedIn, and every uuid waiting in `reorged` has a tracker recorded above the gatekeeper's height
+   (its confirming block was disconnected), so it cannot complete in the next block. *)
+
+Definition RInv (t : tower) : Prop :=
+  memo_ok (car_memo t) /\
+  forall u, In u (reorged t) -> exists k, In k (db_trks t) /\ trk_uuid k = u /\ gk_height t < t_height k.
+
+Lemma core_reorged t t' : core t' = core t -> reorged t' = reorged t.
+Proof. unfold core. intros H. inversion H. reflexivity. Qed.
+
+Lemma reorged_loop_reorged sc h : forall us t rej rej' t', reorged_loop sc h us t rej = Ok rej' t' -> reorged t' = reorged t.
+Proof.
+  induction us as [|uuid us IH]; intros t rej rej' t'; cbn [reorged_loop]; [intros H; inversion H; reflexivity|].
+  destruct (find_trk (db_trks t) uuid) as [k|]; [|apply IH].
+  destruct (send_transaction sc t (t_dispute k)) as [s t1] eqn:E1. apply send_spec in E1. destruct E1 as [Hc1 _].
+  apply core_reorged in Hc1.
+  destruct s as [hh|hh| |c]; [discriminate| | |intros H; apply IH in H; congruence].
+  - destruct (send_transaction sc t1 (t_penalty k)) as [s2 t2] eqn:E2. apply send_spec in E2. destruct E2 as [Hc2 _].
+    apply core_reorged in Hc2. destruct (status_rejected s2); intros H; apply IH in H; [congruence|].
+    change (reorged (set_trk_status t2 uuid h false)) with (reorged t2) in H. congruence.
+  - destruct (send_transaction sc t1 (t_penalty k)) as [s2 t2] eqn:E2. apply send_spec in E2. destruct E2 as [Hc2 _].
+    apply core_reorged in Hc2. destruct (status_rejected s2); intros H; apply IH in H; [congruence|].
+    change (reorged (set_trk_status t2 uuid h false)) with (reorged t2) in H. congruence.
+Qed.
+
+Lemma stale_loop_reorged sc h : forall us t rej rej' t', stale_loop sc h us t rej = Ok rej' t' -> reorged t' = reorged t.
+Proof.
+  induction us as [|uuid us IH]; intros t rej rej' t'; cbn [stale_loop]; [intros H; inversion H; reflexivity|].
+  destruct (find_trk (db_trks t) uuid) as [k|]; [|discriminate].
+  destruct (send_transaction sc t (t_penalty k)) as [s t1] eqn:E1. apply send_spec in E1. destruct E1 as [Hc1 _].
+  apply core_reorged in Hc1.
+  destruct s as [hh|hh| |c]; intros H; apply IH in H; [| | |congruence].
+  - change (reorged (set_trk_status t1 uuid hh true)) with (reorged t1) in H. congruence.
+  - change (reorged (set_trk_status t1 uuid hh false)) with (reorged t1) in H. congruence.
+  - change (reorged (set_trk_status t1 uuid h false)) with (reorged t1) in H. congruence.
+Qed.
+
+Lemma refund_loop_reorged : forall us t t', refund_loop t us = Ok tt t' -> reorged t' = reorged t.
+Proof.
+  induction us as [|uuid us IH]; intros t t'; cbn [refund_loop]; [intros H; inversion H; reflexivity|].
+  destruct (find_app (db_apps t) uuid) as [a|]; [|discriminate].
+  destruct (gk_get t (a_user a)) as [ui|]; [|discriminate].
+  destruct (u32_add (u_slots ui) (slots_of (b_len (a_blob a)))) as [s|]; [|discriminate].
+  intros H. apply IH in H. exact H.
+Qed.
+
+Lemma delete_reorged t us r t' : gk_delete_appointments t us r = Ok tt t' -> reorged t' = reorged t.
+Proof.
+  unfold gk_delete_appointments. destruct r.
+  - destruct (refund_loop t us) as [[] t1|] eqn:E; cbn [bind]; [|discriminate].
+    apply refund_loop_reorged in E. intros H; inversion H; subst. exact E.
+  - intros H; inversion H; reflexivity.
+Qed.
+
+(* after a block connection `reorged` and the carrier's memo are empty *)
+Lemma r_block_clears le sc t2 b h t3 : r_block_connected le sc t2 b h = Ok tt t3 -> reorged t3 = [] /\ car_memo t3 = [].
+Proof.
+  unfold r_block_connected.
+  destruct (ti_update (r_index (set_car_height t2 h)) b) as [idx|]; [|discriminate].
+  destruct (check_conf_loop le _ h _ _ []) as [completed tc|] eqn:Ec; cbn [bind]; [|discriminate]. clear Ec.
+  destruct (match completed with [] => Ok tt tc | _ => gk_delete_appointments tc completed true end) as [[] td|] eqn:Ed;
+    cbn [bind]; [|discriminate]. clear Ed.
+  destruct (match reorged td with [] => Ok [] td | _ :: _ => reorged_loop sc h (reorged td) (set_reorged td []) [] end)
+    as [rej1 t4|] eqn:Er.
+  2:{ destruct (reorged td); [discriminate|]. rewrite Er. cbn [bind]. discriminate. }
+  assert (H4 : reorged t4 = []).
+  { destruct (reorged td) eqn:Ert; [inversion Er; subst; exact Ert|]. apply reorged_loop_reorged in Er. exact Er. }
+  assert (Hb : (match reorged td with [] => Ok [] td | x :: l => reorged_loop sc h (x :: l) (set_reorged td []) [] end) = Ok rej1 t4).
+  { destruct (reorged td); exact Er. }
+  rewrite Hb. cbn [bind]. clear Hb Er.
+  destruct (u32_sub h (Z.to_N Consts.CONFIRMATIONS_BEFORE_RETRY)) as [lim|]; [|discriminate].
+  destruct (stale_loop sc h _ t4 []) as [rej2 t5|] eqn:Es; cbn [bind]; [|discriminate].
+  apply stale_loop_reorged in Es.
+  destruct (match rej1 ++ rej2 with [] => Ok tt t5 | l => gk_delete_appointments t5 l false end) as [[] t6|] eqn:E6;
+    cbn [bind]; [|discriminate].
+  assert (H6 : reorged t6 = reorged t5).
+  { destruct (rej1 ++ rej2); [inversion E6; reflexivity|apply delete_reorged in E6; exact E6]. }
+  intros H; inversion H; subst t3. cbn [reorged car_memo set_car_memo]. split; [congruence|reflexivity].
+Qed.
+
+Lemma RInv_clear t : reorged t = [] -> car_memo t = [] -> RInv t.
+Proof.
+  intros Hr Hm. split.
+  - rewrite Hm. intros tx s Hg. discriminate.
+  - rewrite Hr. intros u [].
+Qed.
+
+Lemma connect_RInv le t hash txs sc t' : step le t (OConnect hash txs) sc = (t', OBlockRes) -> RInv t'.
+Proof.
+  intros Hstep. destruct (connect_phases le t hash txs sc t' Hstep) as [t1 [t2 [_ [_ E3]]]].
+  apply r_block_clears in E3. destruct E3 as [Hr Hm]. apply RInv_clear; assumption.
+Qed.
+
+(* ODisconnect: the trackers confirmed in the disconnected block (height = the gatekeeper's old height) join *)
+Lemma disconnect_RInv le t sc t' : RInv t -> step le t ODisconnect sc = (t', OBlockRes) -> RInv t'.
+Proof.
+  intros [Rm Rr]. cbn [step].
+  destruct (last_hash (set_rpc_log t [])) as [hash|]; [|intros H; inversion H; subst; split; assumption].
+  unfold Consts.LISTENER_ORDER. cbn [run_listeners].
+  change (listener_disconnected hash (gk_height (set_rpc_log t [])) 0 (set_rpc_log t []))
+    with (gk_block_disconnected (set_rpc_log t []) (gk_height t)).
+  unfold gk_block_disconnected, u32_sub. destruct (N.leb 1 (gk_height t)) eqn:El; cbn [bind wrap]; [|intros H; inversion H].
+  apply N.leb_le in El.
+  match goal with |- context [listener_disconnected hash ?h 1 ?t1] =>
+    change (listener_disconnected hash h 1 t1) with (w_block_disconnected t1 hash h) end.
+  unfold w_block_disconnected, u32_sub. cbn [gk_height set_rpc_log].
+  destruct (N.leb 1 (gk_height t)); cbn [bind wrap]; [|intros H; inversion H].
+  match goal with |- context [listener_disconnected hash ?h 2 ?t1] =>
+    change (listener_disconnected hash h 2 t1) with (r_block_disconnected t1 hash h) end.
+  unfold r_block_disconnected. cbn [bind wrap]. intros H; inversion H; subst t'; clear H. split.
+  - exact Rm.
+  - cbn [reorged db_trks gk_height set_reorged set_r_index set_car_height set_w_height set_w_cache set_gk_height set_rpc_log].
+    intros u Hu. apply in_app_or in Hu. destruct Hu as [Hu|Hu].
+    + destruct (Rr u Hu) as [k [Hk [Hku Hkh]]]. exists k. repeat split; try assumption. lia.
+    + apply filter_In in Hu. destruct Hu as [Hu _]. apply in_map_iff in Hu. destruct Hu as [k [Hku Hk]].
+      apply filter_In in Hk. destruct Hk as [Hk Hc]. apply andb_true_iff in Hc. destruct Hc as [_ Hc].
+      apply N.eqb_eq in Hc. exists k. repeat split; try assumption. lia.
+Qed.
+
+(* add_appointment keeps every tracker that was there (the only rows it may delete are under a key without tracker) *)
+Lemma add_tracker_keeps t uuid d p s :
+  reorged (r_add_tracker t uuid d p s) = reorged t /\ car_memo (r_add_tracker t uuid d p s) = car_memo t /\
+  forall k, In k (db_trks t) -> In k (db_trks (r_add_tracker t uuid d p s)).
+Proof.
+  unfold r_add_tracker. destruct s; try (repeat split; auto; fail);
+    destruct (find_trk (db_trks t) uuid); try (repeat split; auto; fail);
+    destruct (find_app (db_apps t) uuid); try (repeat split; auto; fail);
+    (split; [reflexivity|]; split; [reflexivity|]; intros k Hk; cbn [db_trks p_insert_trk set_db_trks]; apply in_or_app; left; exact Hk).
+Qed.
+
+Definition keeps (uuid : N * N) (t t' : tower) : Prop :=
+  reorged t' = reorged t /\ (memo_ok (car_memo t) -> memo_ok (car_memo t')) /\
+  forall k, In k (db_trks t) -> trk_uuid k <> uuid -> In k (db_trks t').
+
+Lemma keeps_trans uuid a b c : keeps uuid a b -> keeps uuid b c -> keeps uuid a c.
+Proof. intros [A1 [A2 A3]] [B1 [B2 B3]]. split; [congruence|]. split; [tauto|]. intros k Hk Hn. apply B3; [apply A3|]; assumption. Qed.
+
+Lemma keeps_delete uuid t : keeps uuid t (db_delete_apps t [uuid]).
+Proof.
+  split; [reflexivity|]. split; [tauto|]. intros k Hk Hn. unfold db_delete_apps. cbn [db_trks set_db_trks set_db_apps].
+  apply filter_In. split; [exact Hk|]. rewrite mem_uuid_single. destruct (uuid_eqb (trk_uuid k) uuid) eqn:E; [|reflexivity].
+  apply uuid_eqb_eq in E. contradiction.
+Qed.
+
+Lemma keeps_store uuid t a t2 : w_store_appointment t a = Ok tt t2 -> keeps uuid t t2.
+Proof.
+  unfold w_store_appointment. destruct (find_app (db_apps t) (app_uuid a)).
+  - intros H; inversion H; subst. split; [reflexivity|]. split; [tauto|]. intros k Hk _. exact Hk.
+  - destruct (amem (db_users t) (a_user a)); intros H; inversion H; subst.
+    split; [reflexivity|]. split; [tauto|]. intros k Hk _. exact Hk.
+Qed.
+
+Lemma keeps_handle_breach uuid0 sc t uuid d p s t' : r_handle_breach sc t uuid d p = Ok s t' -> keeps uuid0 t t'.
+Proof.
+  intros H. apply handle_breach_spec in H. destruct H as [tm [Hc [_ [Ht Hm]]]].
+  assert (Hk : keeps uuid0 t tm).
+  { split; [apply core_reorged; exact Hc|]. split; [intros Hmo; apply Hm in Hmo; tauto|].
+    intros k Hk _. unfold core in Hc. inversion Hc as [[E1 E2 E3 E4 E5 E6 E7 E8 E9 E10]]. rewrite E6. exact Hk. }
+  subst t'. destruct (status_accepted s); [|exact Hk].
+  eapply keeps_trans; [exact Hk|]. destruct (add_tracker_keeps tm uuid d p s) as [A1 [A2 A3]].
+  split; [exact A1|]. split; [rewrite A2; tauto|]. intros k Hkk _. apply A3. exact Hkk.
+Qed.
+
+Lemma keeps_triggered sc t a d t2 : w_store_triggered sc t a d = Ok tt t2 -> keeps (app_uuid a) t t2.
+Proof.
+  unfold w_store_triggered. destruct (decrypt (a_blob a) d) as [p|].
+  - destruct (w_store_appointment t a) as [[] t1|] eqn:E1; cbn [bind]; [|discriminate].
+    apply (keeps_store (app_uuid a)) in E1.
+    destruct (r_handle_breach sc t1 (app_uuid a) d p) as [s t3|] eqn:E2; cbn [bind]; [|discriminate].
+    apply (keeps_handle_breach (app_uuid a)) in E2.
+    destruct (status_rejected s).
+    + unfold gk_delete_appointments. intros H; inversion H; subst.
+      eapply keeps_trans; [exact E1|]. eapply keeps_trans; [exact E2|apply keeps_delete].
+    + intros H; inversion H; subst. eapply keeps_trans; eassumption.
+  - destruct (find_app (db_apps t) (app_uuid a)).
+    + unfold gk_delete_appointments. intros H; inversion H; subst. apply keeps_delete.
+    + intros H; inversion H; subst. split; [reflexivity|]. split; [tauto|]. intros k Hk _. exact Hk.
+Qed.
+
+Lemma add_RInv le t signer loc b delay sig sc t' r :
+  RInv t -> step le t (OAdd signer loc b delay sig) sc = (t', OAddRes r) -> RInv t'.
+Proof.
+  intros HR Hstep.
+  assert (Hfresh : RInv (fresh t)) by exact HR.
+  assert (Hk : t' = fresh t \/ exists u, find_trk (db_trks t) (loc, u) = None /\ keeps (loc, u) t t').
+  { revert Hstep. cbn [step wrap]. unfold w_add_appointment. change (set_rpc_log t []) with (fresh t).
+    destruct (authenticate (fresh t) signer) as [u|]; [|cbn; intros H; inversion H; left; reflexivity].
+    destruct (gk_get (fresh t) u) as [ui|] eqn:Eg; [|cbn; intros H; inversion H].
+    destruct (N.leb (u_expiry ui) (gk_height (fresh t))); [cbn; intros H; inversion H; left; reflexivity|].
+    destruct (find_trk (db_trks (fresh t)) (loc, u)) eqn:Ek; [cbn; intros H; inversion H; left; reflexivity|].
+    unfold gk_add_update_appointment. rewrite Eg.
+    match goal with |- context [if ?c then _ else _] => destruct c end; cbn [bind]; [|cbn; intros H; inversion H; left; reflexivity].
+    intros H. right. exists u. split; [exact Ek|]. revert H.
+    match goal with |- context [ti_get ?c loc] => destruct (ti_get c loc) as [d|] end.
+    - match goal with |- context [w_store_triggered sc ?t1 ?a d] => destruct (w_store_triggered sc t1 a d) as [[] t2|] eqn:E2 end;
+        cbn [bind wrap]; intros H; inversion H; subst. apply keeps_triggered in E2. exact E2.
+    - match goal with |- context [w_store_appointment ?t1 ?a] => destruct (w_store_appointment t1 a) as [[] t2|] eqn:E2 end;
+        cbn [bind wrap]; intros H; inversion H; subst. apply (keeps_store (loc, u)) in E2. exact E2. }
+  destruct Hk as [Hk|[u [Hnone [K1 [K2 K3]]]]]; [subst t'; exact HR|].
+  destruct HR as [Rm Rr]. split; [apply K2; exact Rm|].
+  rewrite K1, (add_height le t signer loc b delay sig sc t' r Hstep).
+  intros w Hw. destruct (Rr w Hw) as [k [Hk [Hku Hkh]]]. exists k. split; [|split; assumption].
+  apply K3; [exact Hk|]. intros He. apply (find_trk_None _ _ Hnone). rewrite <- He. apply in_map. exact Hk.
+Qed.
+
+Lemma register_RInv le t u sc t' r : RInv t -> step le t (ORegister u) sc = (t', ORegisterRes r) -> RInv t'.
+Proof.
+  intros HR. cbn [step wrap]. unfold gk_add_update_user.
+  destruct (gk_get (set_rpc_log t []) u) as [ui|].
+  - destruct (u32_add (u_slots ui) (c_slots (cfg (set_rpc_log t [])))); cbn [wrap]; intros H; inversion H; subst; exact HR.
+  - destruct (u32_add (gk_height (set_rpc_log t [])) (c_duration (cfg (set_rpc_log t [])))); [|cbn [wrap]; intros H; inversion H].
+    destruct (amem (db_users (set_rpc_log t [])) u); cbn [wrap]; intros H; inversion H; subst; exact HR.
+Qed.
+
+Lemma step_RInv le t o sc t' x : RInv t -> step le t o sc = (t', x) -> not_abort x -> RInv t'.
+Proof.
+  intros HR Hstep Hna. pose proof (step_out_shape le t o sc t' x Hstep) as Hshape.
+  destruct o as [u|signer loc b delay sig|signer loc|signer|hash txs|]; destruct x as [r|r|r|r| |s]; try contradiction.
+  - eapply register_RInv; eassumption.
+  - eapply add_RInv; eassumption.
+  - destruct (get_unchanged le t sc signer loc) as [r' Hr']. rewrite Hr' in Hstep. inversion Hstep; subst. exact HR.
+  - destruct (getsub_unchanged le t sc signer) as [r' Hr']. rewrite Hr' in Hstep. inversion Hstep; subst. exact HR.
+  - eapply connect_RInv; eassumption.
+  - eapply disconnect_RInv; eassumption.
+Qed.
+
+(* what is left of connect_side for the environment to guarantee (a consistent chain):
+   E1  the dispute of a tracker completing in this block is not mined again in it;
+   E2  a dispute first seen in this block has a penalty that is not in the responder's index already. *)
+Definition chain_side (t : tower) (txs : list N) : Prop :=
+  (forall k, In k (db_trks t) -> completing (gk_height t + 1) txs k = true -> memN (t_loc k) txs = false) /\
+  (forall a p, In a (db_apps t) -> memN (a_loc a) txs = true -> find_trk (db_trks t) (app_uuid a) = None ->
+               decrypt (a_blob a) (a_loc a) = Some p -> ti_get (r_index t) p = None).
+
+Lemma connect_side_from t txs : Inv t -> RInv t -> chain_side t txs -> connect_side t txs.
+Proof.
+  intros HI [Rm Rr] [E1 E2]. split; [|split; assumption].
+  intros k Hk Hc. split; [|apply E1; assumption].
+  destruct (mem_uuid (trk_uuid k) (reorged t)) eqn:Em; [|reflexivity]. exfalso.
+  apply mem_uuid_In in Em. destruct (Rr _ Em) as [k' [Hk' [Hku Hkh]]].
+  pose proof (NoDup_map_inj trk_uuid (db_trks t) k' k (inv_trks_nodup t HI) Hk' Hk Hku) as He. subst k'.
+  apply completing_iff in Hc. destruct Hc as [_ [Hh _]].
+  unfold u32_sub, IRR, Consts.IRREVOCABLY_RESOLVED in Hh.
+  destruct (N.leb (t_height k) (gk_height t + 1)); [|discriminate]. inversion Hh. lia.
+Qed.
